@@ -14,20 +14,25 @@ KEY = "c44-nonphy-parent-starvation"
 
 COQ_FILES = ["Gen/MetaConsts.v", "Meta/SMap.v", "Meta/Model.v", "Meta/Spec.v", "Meta/Check.v", "Meta/SMapProofs.v",
              "Meta/StatusProofs.v", "Meta/WfProofs.v", "Meta/TypedProofs.v", "Meta/ViewProofs.v",
-             "GC/Model.v", "GC/Spec.v", "GC/Check.v", "GC/Lemmas.v", "GC/C07Proofs.v", "GC/C44Proofs.v", "Props/Properties_C44.v"]
+             "GC/Model.v", "GC/Spec.v", "GC/Check.v", "GC/Lemmas.v", "GC/C07Proofs.v", "GC/C44Proofs.v",
+             "GC/SplitCheck.v", "GC/SplitProofs.v", "Props/Properties_C44.v"]
 
 META = {
     "id": "C44",
     "engine": "gc",
     "design_ref": "5/C44",
-    "coq_targets": ["Props/Properties_C44.vo", "GC/Check.vo"],
+    "coq_targets": ["Props/Properties_C44.vo", "GC/Check.vo", "GC/SplitCheck.vo"],
     "coq_files": COQ_FILES,
     "theorems": ["C44_eventually_partial", "C44_pass_progress", "C44_garbage_eventually", "C44_expired_eventually",
-                 "C44_delete_removes_all", "C44_eventually_refuted_nonphy_parent"],
+                 "C44_delete_removes_all", "C44_eventually_refuted_nonphy_parent",
+                 "C44_split_collect_all", "C44_split_collect_only"],
     "technique": "Coq proof by a decreasing measure (buckets + stored headers + garbage keys) over all well-formed shard states and all "
                  "batch sizes >= 1 on the Gallina model of removeGarbage / collectExpiredObjects / GetGarbage / deleteObjs built on the "
                  "metabase model of C01 + differential correspondence with a real engine holding one real shard, drained by repeated "
-                 "epoch advances and GC passes with batch sizes below the garbage volume + executable oracles for the final state",
+                 "epoch advances and GC passes with batch sizes below the garbage volume + executable oracles for the final state; for expired "
+                 "split objects: Gallina model of the engine's collectChildren / collectChildrenWithoutLink as a function from the stored set "
+                 "to the collected ID list, proved to cover every stored object of a chain of any length (induction on the chain), tied by a "
+                 "differential check on a real engine with 1-2 shards (survivors = stored - collected) and compared with the property text",
     "level_text": "Proved for every shard state with well-formed metabase part holding only objects without parent/split/EC fields, in which "
                   "every stored tombstoned object carries a garbage key (what an accepted tombstone leaves), every batch size >= 1 and every "
                   "epoch e' beyond the GC's current and processed epochs (C44_eventually_partial): there are n1, n2 such that after n1 passes, "
@@ -44,7 +49,15 @@ META = {
                   "every run: histories of puts, tombstones, locks, expirations, forced marks, container removals, then two rounds of (epoch "
                   "advance; passes until two passes change nothing) on a real shard with batch sizes 1-5; every step compared with the model; "
                   "oracles on the drained shard: clean final state, everything that should have gone at the start of the drain is gone, and "
-                  "the two unproved premises on every state.",
+                  "the two unproved premises on every state. Expired split objects (outside the fragment above, engine level): for both split "
+                  "versions, every chain (first ID, any number of later parts / link) and every stored set (any subset of the chain, any shards, "
+                  "other chains mixed in) every stored object of the chain -- the first part included -- is in the ID list "
+                  "collectChildrenWithoutLink hands to Shard.Delete and none survives the delete (C44_split_collect_all), and only the first ID "
+                  "and stored objects bound to the chain are collected (C44_split_collect_only). Tied on every run: real engine with 1-2 "
+                  "shards holding V2/V1 split chains of 2-4 parts (with / without link object, full / partial, parts spread over the shards, "
+                  "expiring parents and controls incl. expiration = final epoch), two rounds of (epoch advance; passes on every shard until "
+                  "quiescence); surviving part indices (data and metadata) compared with the model (stored - collected) and with the property "
+                  "text (expired unlocked parent: nothing left; otherwise everything left).",
     "level_note": "partial: (1) the theorem speaks about the final state (nothing that should go is stored); that an object which should go at "
                   "the START is the same object later (persistence) and that data never exists without metadata (so that 'no metadata' "
                   "implies 'no data') are not proved — oracles 61/63 check them on every run; the premise ts_inv (stored tombstoned => "
@@ -54,13 +67,17 @@ META = {
                   "object after the epoch was marked processed); (3) premise excluding persistently failing deletes: the model has no failing "
                   "component calls (a failing metabase Delete retries the same batch forever; a failing BLOB delete leaves data without "
                   "metadata) — not exercised; (4) fragment without family relations, outside it the known finding "
-                  "c44-nonphy-parent-starvation. Trusted: Coq kernel + vm_compute, hand-written model (tied), bbolt as ordered map, fstree as "
+                  "c44-nonphy-parent-starvation; (5) expired split objects: only the collection step (stored set -> IDs handed to Shard.Delete) is "
+                  "modelled and proved; that IterateExpired yields the expired parent, that metabase Exists assembles the split info (first / "
+                  "split ID) from the stored parts, that a link object of an expired parent is not readable (so the lookup path is taken) and "
+                  "that Shard.Delete removes what it is given on every shard are tie-only (differential check of the survivors on the real "
+                  "engine); locked split parents and EC parents are not exercised in this class. Trusted: Coq kernel + vm_compute, hand-written model (tied), bbolt as ordered map, fstree as "
                   "address->presence, Go harness, Python driver; 61-bit digest per step.",
-    "trusted_base": ["Coq 8.16.1 kernel, vm_compute", "models Meta/Model.v + GC/Model.v hand-written, tied by differential check",
+    "trusted_base": ["Coq 8.16.1 kernel, vm_compute", "models Meta/Model.v + GC/Model.v + GC/SplitCheck.v hand-written, tied by differential check",
                      "harness/cmd/gc, hooks zz_verif_gc_shard.go / zz_verif_gc_engine.go / zz_verif_meta.go, props/_gc.py, lib/vlib.py",
                      "bbolt modelled as an ordered map with atomic transactions; fstree as address -> presence"],
     "assumptions": ["objects without parent / split / EC fields (invariant inv)", "no failing metabase / BLOB storage calls",
-                    "read-write mode, no write-cache, engine with exactly one shard", "GC batch size >= 1"],
+                    "read-write mode, no write-cache, engine with exactly one shard (shard-level theorems; the split class runs 1-2 shards)", "GC batch size >= 1"],
 }
 
 REG = lambda c, i: {"c": c, "id": i, "t": 0, "sz": 5, "exp": -1, "as": 0}
@@ -100,21 +117,152 @@ def impl_residue(h):
     return res
 
 
+# ---------------------------------------------------------------- scenario class "expired split objects"
+SPLIT_PRELUDE = ("From Coq Require Import List NArith Bool.\nImport ListNotations.\n"
+                 "From NV Require Import GC.SplitCheck.\nLocal Open Scope N_scope.\n")
+SPLIT_IN = ("i", "shards", "lim", "epoch0", "rounds", "chains")
+
+
+def split_n(ctx):
+    return 60 if ctx.tier == "quick" else 1500
+
+
+def coq_scase(c):
+    chs = []
+    for k, ch in enumerate(c["chains"]):
+        chs.append("(mkSChain %d %s %d %s %s %s)" % (ch["c"], "true" if ch["ver"] == 1 else "false", ch["n"], G.opt(ch["exp"], -1),
+                                                   G.nlist(c["before"][k]), G.nlist(c["after"][k])))
+    return "(mkSCase %d [%s])" % (c["epoch_n"], "; ".join(chs))
+
+
+def split_input(c):
+    return {k: c[k] for k in SPLIT_IN}
+
+
+def split_check(ctx, binp, cases):
+    """-> (ok_model, ok_ref, ok_harness): ties of the class; reports violations"""
+    if not cases:
+        return True, True, True
+    # harness sanity: every accepted put is stored with data and metadata before the drain, the drain settled
+    insane = [c["i"] for c in cases if not c.get("settled") or any(b == [-1] for b in c["before"]) or
+              any(sorted(x for x, r in zip(ch["stored"], c["put_res"][k]) if r == 0) != c["before"][k] for k, ch in enumerate(c["chains"]))]
+    chunk = 50
+    jobs = []
+    for off in range(0, len(cases), chunk):
+        text = SPLIT_PRELUDE + "Definition cases : list scase := [\n%s].\n" % ";\n".join(coq_scase(c) for c in cases[off:off + chunk])
+        jobs.append(("gcsplit", text, {"mm": "split_mismatches cases"}))
+    model_bad, ref_bad = {}, {}
+    for j, res in enumerate(ctx.coq_eval_many(jobs)):
+        if res is None:
+            return False, False, not insane
+        for code in res["mm"]:
+            i, k, sec = j * chunk + code // 40, (code % 40) // 4, code % 4
+            (model_bad if sec == 1 else ref_bad).setdefault(i, []).append(k)
+    # the same reference evaluated here on the raw observation (data and metadata separately)
+    for i, c in enumerate(cases):
+        for k, ch in enumerate(c["chains"]):
+            expired = 0 <= ch["exp"] < c["epoch_n"]
+            want = [] if expired else c["before"][k]
+            if c["blob"][k] != want or c["meta"][k] != want:
+                ref_bad.setdefault(i, [])
+                if k not in ref_bad[i]:
+                    ref_bad[i].append(k)
+    for i in sorted(set(model_bad) | set(ref_bad))[:4]:
+        c = cases[i]
+        small = minimise_split(ctx, binp, c)
+        ctx.violation({"split_case": split_input(small["case"]), "class": "expired split objects",
+                       "disagrees_on": (["model (stored - collected)"] if i in model_bad else []) +
+                                       (["property text: expired unlocked parent => no part is left; otherwise all parts stay"] if i in ref_bad else []),
+                       "chains": [{"chain": k, "version": ch["ver"], "parts": ch["n"], "parent_expiration": ch["exp"], "final_epoch": small["obs"]["epoch_n"],
+                                   "stored_indices_before (n = link)": small["obs"]["before"][k],
+                                   "impl_data_left": small["obs"]["blob"][k], "impl_metadata_left": small["obs"]["meta"][k],
+                                   "reference_left": [] if 0 <= ch["exp"] < small["obs"]["epoch_n"] else small["obs"]["before"][k]}
+                                  for k, ch in enumerate(small["case"]["chains"])]})
+    for i in insane[:2]:
+        ctx.violation({"split_case": split_input(cases[i]), "class": "expired split objects",
+                       "disagrees_on": ["harness sanity: accepted puts stored with data+metadata / drain settles"],
+                       "put_res": cases[i]["put_res"], "before": cases[i]["before"], "settled": cases[i].get("settled", False)})
+    return not model_bad, not ref_bad, not insane
+
+
+def split_wrong(c):
+    for k, ch in enumerate(c["chains"]):
+        want = [] if 0 <= ch["exp"] < c["epoch_n"] else c["before"][k]
+        if c["blob"][k] != want or c["meta"][k] != want:
+            return True
+    return False
+
+
+def split_replay(ctx, binp, cases):
+    inp = "\n".join(json.dumps(split_input(c)) for c in cases) + "\n"
+    return ctx.run_json([binp, "splitreplay"], input=inp, timeout=3000)
+
+
+def minimise_split(ctx, binp, c):
+    """drop chains / stored objects / the second shard while the implementation still leaves the wrong set"""
+    cur, obs = split_input(c), c
+    if not split_wrong(c):
+        return {"case": cur, "obs": obs}
+    for _ in range(6):
+        cands = []
+        for k in range(len(cur["chains"])):
+            if len(cur["chains"]) > 1:
+                cands.append(dict(cur, chains=cur["chains"][:k] + cur["chains"][k + 1:]))
+            ch = cur["chains"][k]
+            for j in range(len(ch["stored"])):
+                ch2 = dict(ch, stored=ch["stored"][:j] + ch["stored"][j + 1:], shard=ch["shard"][:j] + ch["shard"][j + 1:])
+                if any(x >= ch["n"] - 1 for x in ch2["stored"]):
+                    cands.append(dict(cur, chains=cur["chains"][:k] + [ch2] + cur["chains"][k + 1:]))
+        if cur["shards"] > 1:
+            cands.append(dict(cur, shards=1))
+        if not cands:
+            break
+        out = split_replay(ctx, binp, cands)
+        nxt = next(((cd, o) for cd, o in zip(cands, out) if split_wrong(o)), None)
+        if nxt is None:
+            break
+        cur, obs = nxt
+    return {"case": cur, "obs": obs}
+
+
+def split_coverage(cases):
+    hist = lambda f: {k: v for k, v in sorted(__import__("collections").Counter(str(x) for x in f).items())}
+    chains = [(c, k, ch) for c in cases for k, ch in enumerate(c["chains"])]
+    expired = [(c, k, ch) for c, k, ch in chains if 0 <= ch["exp"] < c["epoch_n"]]
+    return {
+        "split_cases": len(cases), "split_chains": len(chains),
+        "split_expired_chains": len(expired),
+        "split_expired_without_link_v2": sum(1 for c, k, ch in expired if ch["ver"] == 2 and ch["n"] not in c["before"][k]),
+        "split_expired_first_part_stored": sum(1 for c, k, ch in expired if 0 in c["before"][k]),
+        "split_version_histogram": hist(ch["ver"] for _, _, ch in chains),
+        "split_parts_histogram": hist(ch["n"] for _, _, ch in chains),
+        "split_shards_histogram": hist(c["shards"] for c in cases),
+        "split_expiration_minus_start_epoch_histogram": hist(("none" if ch["exp"] < 0 else ch["exp"] - c["epoch0"]) for c, _, ch in chains),
+        "split_stored_subset_histogram": hist(("all" if len([x for x in c["before"][k] if x < ch["n"]]) >= ch["n"] else "partial") + ("+link" if ch["n"] in c["before"][k] else "")
+                                              for c, k, ch in chains),
+        "split_sample": [{"input": split_input(cases[len(cases) // 2]), "before": cases[len(cases) // 2]["before"],
+                          "after": cases[len(cases) // 2]["after"]}] if cases else [],
+    }
+
+
 def run(ctx):
     binp = ctx.go_build()
     ctx.prove()
-    if not ctx.model_ready(G.MODEL_VO):
+    if not ctx.model_ready(G.MODEL_VO + ["GC/SplitCheck.vo"]):
         ctx.tie(False)
         return
     if ctx.replay:
         rp = json.load(open(ctx.replay))
         jobs = [v["case"] for v in rp.get("violations", []) if "case" in v]
         hs = G.replay_harness(ctx, binp, jobs) if jobs else []
+        sjobs = [v["split_case"] for v in rp.get("violations", []) if "split_case" in v]
+        scases = split_replay(ctx, binp, sjobs) if sjobs else []
     else:
         hs = []
         for (profile, n, ln, drain) in tiers(ctx):
             hs += G.run_harness(ctx, binp, n, ln, profile, drain)
         hs += G.replay_harness(ctx, binp, [starve_job(1), starve_job(2)])
+        scases = ctx.run_json([binp, "split", str(split_n(ctx))], timeout=3000)
     res = G.evaluate(ctx, hs, chunk=max(1, (len(hs) + 3) // 4) if ctx.tier == "quick" else None)
     if res is None:
         ctx.tie(False)
@@ -155,7 +303,21 @@ def run(ctx):
     for i, r in known[:1]:
         ctx.violation({"case": {"lim": hs[i]["lim"], "ops": hs[i]["ops"][:hs[i]["drain"]], "drain": 2},
                        "passes_run": len(hs[i]["ops"]) - hs[i]["drain"], "residue_on_real_shard": r}, key=KEY)
+    # expired split objects on the engine (1-2 shards): implementation = model (stored - collected) = property text
+    sm, sr, sh_ok = split_check(ctx, binp, scases)
+    ctx.tie(sm and sh_ok)
+    ctx.tie(sr)
     coverage(ctx, hs, len(known))
+    ctx.cov.update(split_coverage(scases))
+    ctx.cov["evaluations"] += sum(len(c["chains"]) for c in scases)
+    ctx.cov["rule"] += ("; class 'expired split objects': 16 fixed scenarios (V2/V1 x link/no link x expiring/control x 1-2 shards) + cases from the "
+                        "same stream: engine with 1-2 shards, 1-3 split chains of 2-4 parts (V2 by split.first, 25% V1 by split ID; 35% with the "
+                        "link object; 40% with a random subset of the parts stored; every object on a random shard; parent expiration = start "
+                        "epoch -1/0/+1/+2 (= final epoch, must stay)/+50/none), then 2 rounds of (epoch advance + event on every shard; passes on "
+                        "every shard until two rounds change nothing); one evaluation = one chain, compared with the model (stored - collected) "
+                        "and with the property text; non-trivial = distinct layouts with an expired chain")
+    ctx.cov["distinct_nontrivial"] += len({json.dumps([c["shards"], [(ch["ver"], ch["n"], ch["exp"] - c["epoch0"], c["before"][k], ch["shard"]) for k, ch in enumerate(c["chains"])]])
+                                            for c in scases if any(0 <= ch["exp"] < c["epoch_n"] for ch in c["chains"])})
 
 
 def coverage(ctx, hs, nknown):
